@@ -43,6 +43,10 @@ func runCase(kind string, spec json.RawMessage) vx.Out {
 		var s nsqd.TimingSpec
 		json.Unmarshal(spec, &s)
 		return runBody(func() vx.Out { return nsqd.RunTiming(s) })
+	case "churn":
+		var s nsqd.ChurnSpec
+		json.Unmarshal(spec, &s)
+		return runBody(func() vx.Out { return nsqd.RunScanChurn(s) })
 	case "msgto":
 		var v int
 		json.Unmarshal(spec, &v)
@@ -133,7 +137,7 @@ func mustJSON(v interface{}) json.RawMessage {
 
 func checkC04(tier string) int {
 	rep := vx.NewReport("C04", tier, "model_checking")
-	rep.Rule = "(1) explicit-state BFS over all operation sequences (Push/Pop/Remove/PeekAndShift) on both real priority queues against a sorted multiset, states deduplicated by slice contents; (2) E5: every delay spelling x {REQ, DPUB, HTTP defer} x max-req-timeout, judged in virtual time; (3) every ordered pair of message fates (timeout, TOUCH patterns, REQ d, DPUB d) sharing one channel, judged from exact arrival times; (4) E3 BFS over histories with the never-early clauses; (5) E1 TOUCH vs timeout scan. distinct = distinct heap states + distinct case outcomes"
+	rep.Rule = "(1) explicit-state BFS over all operation sequences (Push/Pop/Remove/PeekAndShift) on both real priority queues against a sorted multiset, states deduplicated by slice contents; (2) E5: every delay spelling x {REQ, DPUB, HTTP defer} x max-req-timeout, judged in virtual time; (3) every ordered pair of message fates (timeout, TOUCH patterns, REQ d, DPUB d) sharing one channel, judged from exact arrival times; (3b) the set of channels changing between two refreshes of the queue-scan loop's list (a channel replaced by another / re-created / an ephemeral one leaving and another arriving / one added / its topic replaced) x work falling due on the new channel (timeout, deferred publish, REQ delay) x offset within the refresh interval x other channels present, judged against deadline + refresh interval + scan interval; (4) E3 BFS over histories with the never-early clauses; (5) E1 TOUCH vs timeout scan. distinct = distinct heap states + distinct case outcomes"
 	rep.Assumptions = []string{"virtual time: lateness bound = deadline + queue-scan-interval + queue-scan-refresh-interval", "DPUB delay judged only while the message is held in memory (mem-queue-size > 0)"}
 	depth := 6
 	if tier == "thorough" {
@@ -204,6 +208,19 @@ func checkC04(tier string) int {
 	for _, v := range []int{0, 999, 1000, 2500, 2501, -1, 1500} {
 		jobs = append(jobs, caseJob{"msgto", mustJSON(v)})
 	}
+	// the set of channels changing between two refreshes of the scan loop's channel list
+	nChurn := 0
+	for _, rp := range []string{"other", "same", "ephemeral", "add", "topic"} {
+		for _, pd := range []string{"timeout", "dpub", "req"} {
+			for _, off := range []int{50, 250, 450} {
+				for _, others := range []int{0, 1, 2} {
+					jobs = append(jobs, caseJob{"churn", mustJSON(nsqd.ChurnSpec{Replace: rp, Pending: pd, Offset: off, Others: others})})
+					nChurn++
+				}
+			}
+		}
+	}
+	rep.Extra["scan_list_churn_cases"] = nChurn
 	runCases(rep, jobs, 4)
 	rep.Extra["spelling_and_timing_cases"] = len(jobs)
 	// (4) histories
